@@ -23,6 +23,7 @@ CHECKS = {
         "runs": [
             {"pkg": "core", "run": "^TestC01CrossTalk$", "quick": 400, "thorough": 12000, "shards_thorough": 8},
             {"pkg": "core", "run": "^TestC01SequenceNumbers$", "quick": 60, "thorough": 2000, "shards_thorough": 8},
+            {"pkg": "core", "run": "^TestC01Controllers$", "quick": 400, "thorough": 20000, "shards_thorough": 4},
             {"pkg": "thriftw", "run": "^TestC01ThriftSessions$", "quick": 200, "thorough": 6000, "shards_thorough": 4},
         ],
     },
